@@ -1351,10 +1351,17 @@ namespace occa {
       }
       // Remove macro
       const std::string &macroName = token->to<identifierToken>().value;
-      delete getMacro(macroName);
+      // Same lookup order as getMacro: the macro has to leave the map that owns it
       macroMap::iterator it = sourceMacros.find(macroName);
       if (it != sourceMacros.end()) {
+        delete it->second;
         sourceMacros.erase(it);
+      } else {
+        it = compilerMacros.find(macroName);
+        if (it != compilerMacros.end()) {
+          delete it->second;
+          compilerMacros.erase(it);
+        }
       }
       delete token;
     }
